@@ -49,6 +49,52 @@ def read_src(path):
     return _src_cache[full]
 
 
+def macro_instance(src, spec):
+    """`macroinst=<macro>@<file>[#k]`: return the text of `src` (the file that defines macro_rules! <macro>) with the
+    metavariables of the macro's single arm replaced by the argument tokens of the k-th invocation `<macro>!(..)` found in
+    <file> - what rustc's macro expansion does for `$name:ident` / `$name:expr` fragments. Both the parameter names and
+    the arguments are read from the sources, not from the template. Only arms without repetitions are supported."""
+    m = re.match(r'^(\w+)@([^#]+)(?:#(\d+))?$', spec)
+    if not m:
+        raise rsx.SliceError("bad macroinst %r" % spec)
+    name, ifile, k = m.group(1), m.group(2), int(m.group(3) or 0)
+    hm = re.search(r'macro_rules!\s*' + re.escape(name) + r'\s*\{\s*\(([^)]*)\)\s*=>', src)
+    if not hm:
+        raise rsx.SliceError("macro_rules! %s not found" % name)
+    params = re.findall(r'\$(\w+)\s*:\s*\w+', hm.group(1))
+    if '$(' in hm.group(1):
+        raise rsx.SliceError("macro %s uses repetitions: not supported" % name)
+    isrc = read_src(ifile)
+    calls = [c for c in re.finditer(r'(?<![\w!])' + re.escape(name) + r'!\s*[\(\{\[]', isrc)]
+    calls = [c for c in calls if not re.search(r'macro_rules!\s*$', isrc[:c.start()])]
+    if k >= len(calls):
+        raise rsx.SliceError("invocation #%d of %s! not found in %s" % (k, name, ifile))
+    st = calls[k].end()
+    depth, i, args, cur = 1, st, [], ""
+    while depth > 0:
+        ch = isrc[i]
+        if ch in '([{':
+            depth += 1
+        elif ch in ')]}':
+            depth -= 1
+            if depth == 0:
+                break
+        if ch == ',' and depth == 1:
+            args.append(cur.strip()); cur = ""
+        else:
+            cur += ch
+        i += 1
+    if cur.strip():
+        args.append(cur.strip())
+    if len(args) != len(params):
+        raise rsx.SliceError("%s!: %d arguments for %d parameters" % (name, len(args), len(params)))
+    out = src
+    for pn, av in sorted(zip(params, args), key=lambda x: -len(x[0])):
+        out = re.sub(r'\$' + re.escape(pn) + r'\b', av, out)
+    out = re.sub(r'\$crate\b', 'crate', out)
+    return out
+
+
 class FnEntry:
     def __init__(self):
         self.key = None          # file|impl|name
@@ -243,6 +289,8 @@ def generate(name, expanded_src=None):
                 else:
                     src = read_src(e.file)
                     srcname = e.file
+                    if e.opts.get('macroinst'):
+                        src = macro_instance(src, e.opts['macroinst'])
                 within = None
                 if e.impl not in ('-', ''):
                     blocks = rsx.find_impl_blocks(src, e.impl, anydepth=bool(e.opts.get('nested')))
@@ -328,6 +376,9 @@ def generate(name, expanded_src=None):
             parts = [p.strip() for p in rest.split('|')]
             try:
                 src = read_src(parts[0])
+                for po in parts[3:]:
+                    if po.startswith('macroinst='):
+                        src = macro_instance(src, po[len('macroinst='):])
                 nth_item = 0
                 for po in parts[3:]:
                     if po.startswith('nth='):
